@@ -13,7 +13,7 @@ TRUST = ("Trusted: go/packages+go/ssa front end, the ikeverif VC generator, the 
 
 CLAIMED = {
  "C01": dict(cat="proof", ref="DESIGN.md 4 (C01), 9.3",
-  text="The round trip is decided as the composition of two discharged halves over one explicit wire form: (a) lemma_C06_format proves, for all 9 suites, both roles, all keys, header fields and payload data, that what EncodeEncrypt emits is header | SK header | IV | CBC_enc(sender key, payloads|pad|padlen) | HMAC(sender key, everything before)[:icv]; (b) lemma_C06_accept / _empty prove that ANY datagram of that form (any IV, any legal padding, built by a textbook encoder in the lemma) is accepted by DecodeDecrypt in the opposite role with the same keys - header pre-parsed or not - and yields the original header fields and payload; plus the nil-key lemma (plain encode / decode) which is proved without bound. AES-CBC and HMAC are uninterpreted with CBCdec(CBCenc(x)) = x.",
+  text="The round trip is decided as the composition of two discharged halves over one explicit wire form: (a) lemma_C06_format proves, for all 9 suites, both roles, all keys, header fields and payload data, that what EncodeEncrypt emits is header | SK header | IV | CBC_enc(sender key, payloads|pad|padlen) | HMAC(sender key, everything before)[:icv]; (b) lemma_C06_accept / _empty prove that ANY datagram of that form (any IV, any legal padding, built by a textbook encoder in the lemma) is accepted by DecodeDecrypt in the opposite role with the same keys - header pre-parsed or not - and yields the original header fields and payload; plus the nil-key lemma (plain encode / decode) which is proved without bound. Both halves start from an SA object with an arbitrary history, abstracted as 'same keys, arbitrary buffered hash input'; that abstraction is justified by the frame condition of lemma_C17_state_preserved, whose obligations are counted here as well. AES-CBC and HMAC are uninterpreted with CBCdec(CBCenc(x)) = x.",
   note="The composition (a)+(b) => round trip is an argument in DESIGN.md 9.3 (it additionally uses CBCenc(CBCdec(c)) = c), not one SMT query: executing the decoder symbolically on the encoder's symbolic output exceeds the executor's memory budget. Bounded stand-ins: payload lists of exactly one payload (Nonce, any data up to 60000 octets) and the empty list; other payload kinds inherit C03's per-payload results."),
  "C02": dict(cat="proof", ref="DESIGN.md 4 (C02), 9.3",
   text="Structural core of rejection, proved with spy ciphers installed in the public Encr_i / Encr_r fields: for ANY received bytes and ANY SK body (related or not), at decryptMsg and again at the public entry point DecodeDecrypt (any header fields and flags, header pre-parsed or not), ciphertext reaches a cipher only after the truncated HMAC under the receiver's PEER-direction integrity key over every octet from the first header octet up to the checksum has been found equal to the checksum (all icv octets), and then exactly the peer-direction cipher is called once with the SK body minus checksum; the receiver's role alone selects the direction. A datagram presenting no SK payload is handled as an unprotected datagram with no cipher call. Safety (no crash on any bytes) is C04.",
@@ -43,13 +43,13 @@ CLAIMED = {
   text="NewCrypto, Encrypt and Decrypt of the AES-CBC transform are executed symbolically for all three key sizes, every key and every plaintext / ciphertext (any length), with AES-CBC as an uninterpreted function over abstract byte strings and the single axiom CBCdec(k,iv,CBCenc(k,iv,x)) = x. Obligations: key accepted iff its length is the negotiated one and library-made objects carry no fixed IV/padding; size law len = 16+16k, n < 16k <= n+16; the leading 16 octets are exactly this call's successful draw from the system random source and the object retains nothing; the body decrypts under a textbook crypto/cipher CBC decrypter (written in the lemma) to the plaintext followed by padding whose last octet is 16k-n-1; any failing read of the random source yields an error and no ciphertext; Decrypt(Encrypt(p)) = p; short / misaligned / impossible-pad ciphertexts are refused and every possible pad length 0..255 is accepted with the textbook result.",
   note="'no IV repeats across calls' is a property of the random source's distribution and is not decided (only provenance: the IV is the call's own unmodified draw). The padding loop (<= 15 iterations) is unrolled completely with the unwinding assertion on. crypto/aes + crypto/cipher are assumed to be textbook AES-CBC."),
  "C11": dict(cat="proof", ref="DESIGN.md 4 (C11)",
-  text="The registries' post-init state is computed by symbolically executing the packages' init functions; DecodeTransform/ToTransform/StrToType of all five registries and the proposal<->SA conversions are then verified for a fully symbolic transform (all 65536 identifiers, every attribute type/value/format/presence, any TLV bytes) in single quantifier-free queries: a decoded algorithm always carries the transform's identifier and key size, ToTransform;DecodeTransform is the identity on every registered descriptor, the length tables equal the RFC values written into the lemmas, and unsupported input yields nil / an error.",
+  text="The registries' post-init state is computed by symbolically executing the packages' init functions; DecodeTransform/ToTransform/StrToType of all five registries and the proposal<->SA conversions are then verified for a fully symbolic transform (all 65536 identifiers, every attribute type/value/format/presence, any TLV bytes) in single quantifier-free queries: a decoded algorithm always carries the transform's identifier and key size, ToTransform;DecodeTransform is the identity on every registered descriptor, the length tables equal the RFC values written into the lemmas, unsupported input yields nil / an error, and a conversion is unaffected by whatever the caller did to the transforms earlier conversions returned (every conversion returns its own object).",
   note="Key/output lengths are compared with constants typed from RFCs 2403/2404/4868/3602/2409/3526 in /verif/contracts/security."),
  "C12": dict(cat="proof", ref="DESIGN.md 4 (C12), 9",
   text="Stability lemma functions over arbitrary byte strings b (no precondition): Unmarshal(b) ok and Marshal ok imply that the re-encoding decodes to equal fields and re-encodes to the same bytes, and canonical inputs re-encode byte-identically. Proved without bound for the loop-free payloads (KE, IDi, IDr, CERT, CERTREQ, AUTH, Nonce, Notify, Vendor ID); CP and Delete as bounded stand-ins (<= 2 elements).",
   note="SA and EAP-AKA' stability: SA is covered by the bounded round-trip lemmas of C03 only; AKA' under C14."),
  "C13": dict(cat="proof", ref="DESIGN.md 4 (C13)",
-  text="Per-iteration step contracts of the payload-chain walker, proved for every iteration (the loop is cut at its head with an inferred invariant, so the position in the chain and the chain length are unbounded): an unsupported type (all 239 codes are one symbolic value) with the critical bit clear leaves the container untouched and continues with exactly (next = octet 0, rest = bytes after the stated length); with the critical bit set the iteration can only leave through the error return; for implemented types exactly one element is appended and octet 1 plays no role.",
+  text="Per-iteration step contracts of the payload-chain walker, proved for every iteration (the loop is cut at its head with an inferred invariant, so the position in the chain and the chain length are unbounded): an unsupported type (all 239 codes are one symbolic value) with the critical bit clear leaves the container untouched and continues with exactly (next = octet 0, rest = bytes after the stated length); with the critical bit set the iteration can only leave through the error return; for implemented types exactly one element is appended and octet 1 plays no role. An exit predicate, checked on every edge that leaves the loop from inside its body, proves the converse half: an iteration that meets a well-formed unsupported payload gives the walk up only when the critical bit is set.",
   note="The whole-message corollary ('decodes exactly as the same message without them') follows from the step contract by induction over the chain; the induction itself is an argument in DESIGN.md, not a discharged obligation."),
  "C14": dict(cat="proof", ref="DESIGN.md 4 (C14), 9.4",
   text="EAP framing proved without bound for every code, identifier and datum: Success/Failure (header only, length 4), Identity / Notification / Nak (type octet, data, length field = packet size, round trip), Expanded (254, 24-bit vendor id, 32-bit vendor type), oversize packets refused instead of truncated. The EAP-AKA' setter is proved for every attribute type and every offered size 0..300: size rules (RAND/AUTN/MAC 16, KDF 2, RES 4..16, CHECKCODE 0/20/32), length in words, exact bit length for RES / KDF_INPUT, and 'the value read back is exactly the value set'. Per attribute type, one-attribute packets: Marshal emits the RFC 4187/5448 layout (multiple of four octets, zero padding, bit length), encoding twice is identical, and every well-formed wire image built octet by octet in the lemma (any padding octets) decodes to the value it carries and re-encodes to the same octets when canonical.",
@@ -61,18 +61,18 @@ CLAIMED = {
   text="EapAkaPrimePRF is executed symbolically against a textbook PRF' written in the lemma over the standard library's HMAC (T1 = HMAC(K, S|1), Tn = HMAC(K, T(n-1)|S|n)); HMAC-SHA-256 is an uninterpreted function over abstract byte-string values, so the comparison holds for every IK', CK' (any lengths >= 1) and identity string. Both loops have the constant trip count 7 and are unrolled completely with the unwinding assertion on (complete, not bounded). Obligations: empty IK'/CK' refused; result lengths 16/32/32/64/64; each result equals the stated octet range of T1|..|T7.",
   note="HMAC-SHA-256 is uninterpreted (only its output length is used); byte-string extensionality is instantiated for every pair of HMAC arguments; input lengths up to 2^40."),
  "C17": dict(cat="proof", ref="DESIGN.md 4 (C17), 9.3",
-  text="History is cut by an object invariant instead of being explored: (1) lemma_C17_state_preserved proves that EncodeEncrypt and decryptMsg (any received bytes, any SK body: genuine, forged or malformed; success and every error return) leave the SA's object slots and cipher-object fields exactly as they were, and lemma_C17_child_derivation that a Child SA derivation leaves Prf_d / PrfInfo / SK_d as they were - so all any history can change is the buffered input of the long-lived hash objects; (2) every operation is then proved to meet its fresh-object contract from a state with ARBITRARY buffered hash input: protected messages have the reference form a fresh peer accepts (C06 format lemma), genuine reference-built messages are accepted (C06 accept lemma), forged ones fail the same HMAC equation (C02 lemma), derived Child SA keys equal those of a fresh SA (C08 lemma, two derivations in a row), and lib.PrfPlus's per-iteration contract holds for any buffered state. By induction over the history this covers every sequence of operations (the property's length-64 exploration is subsumed).",
+  text="History is cut by an object invariant instead of being explored: (1) lemma_C17_state_preserved proves that EncodeEncrypt and decryptMsg (any received bytes, any SK body: genuine, forged or malformed; success and every error return) leave the SA's object slots and cipher-object fields exactly as they were, and lemma_C17_child_derivation that a Child SA derivation leaves Prf_d / PrfInfo / SK_d as they were - and a frame condition (assigns clause generated from the executor's write log, one obligation per memory kind written) proves that protect / unprotect write to nothing that existed before the call except the message object handed in and the hash objects' buffered input - which also covers fields added to the SA or cipher objects later - so all any history can change is the buffered input of the long-lived hash objects; (2) every operation is then proved to meet its fresh-object contract from a state with ARBITRARY buffered hash input: protected messages have the reference form a fresh peer accepts (C06 format lemma), genuine reference-built messages are accepted (C06 accept lemma), forged ones fail the same HMAC equation (C02 lemma), derived Child SA keys equal those of a fresh SA (C08 lemma, two derivations in a row), and lib.PrfPlus's per-iteration contract holds for any buffered state. By induction over the history this covers every sequence of operations (the property's length-64 exploration is subsumed).",
   note="The induction over the history is an argument (DESIGN.md 9.3) over discharged per-operation obligations. Bounded stand-ins as in C06/C02 (one inner payload)."),
  "C18": dict(cat="other", ref="DESIGN.md 4 (C18), 9.5",
   tech="frame (assigns) obligations decided by a data-flow analysis over go/ssa: no write to package-level state outside initialisers, interprocedural write-through-parameter and returns-shared summaries",
-  text="What contract-based verification can express of this property is its stated reason: the library keeps no mutable state outside the objects passed in. A frame analysis over the SSA of every non-test library function (one obligation per function) proves that outside package initialisers nothing derived from a package-level variable is stored to, appended to, copied into, map-updated, passed to a repository function that writes through that parameter, or passed to an external function not on a short read-only list; that no function writes through a []byte parameter, not even into its spare capacity (except the padding helpers documented to extend the plaintext buffer they are given), so input buffers may be shared read-only; and that library code uses no goroutines, channels, sync, atomic or unsafe. With the per-operation frame results of C20 / C17 / C19 (decoders own their output, encoders return fresh buffers, SA operations touch only the SA passed in) operations on disjoint arguments write disjoint memory, hence cannot race (Go memory model) and return what they return alone.",
+  text="What contract-based verification can express of this property is its stated reason: the library keeps no mutable state outside the objects passed in. A frame analysis over the SSA of every non-test library function (one obligation per function) proves that outside package initialisers nothing derived from a package-level variable is stored to, appended to, copied into, map-updated, passed to a repository function that writes through that parameter, or passed to an external function not on a short read-only list; that no function writes through a []byte parameter, not even into its spare capacity (except the padding helpers documented to extend the plaintext buffer they are given), so input buffers may be shared read-only; and that library code uses no goroutines, channels, sync, atomic or unsafe. With the per-operation frame results of C20 / C17 / C19 (decoders own their output, encoders return fresh buffers, SA operations touch only the SA passed in) operations on disjoint arguments write disjoint memory, hence cannot race (Go memory model) and return what they return alone. The protect / unprotect frame condition of lemma_C17_state_preserved (SMT obligations) is counted here too.",
   note="NOT decided: the schedule quantifier itself - no interleaving is executed and the race detector's observations are not reproduced; thread-safety of crypto/rand.Reader and of math/big read-only operations is assumed."),
  "C19": dict(cat="proof", ref="DESIGN.md 4 (C19)",
   text="Every builder and constructor is loop-free; its lemma function proves for all arguments and any prior container content that exactly one element is appended, earlier elements are untouched, the new element's dynamic type and fields equal the arguments (byte strings by content, in fresh storage), NewHeader sets version 2.0 and exactly the 0x20/0x08 flag bits which IsResponse/IsInitiator report back, and the 3GPP helpers emit the TS 24.502 layouts written into the lemmas, with errors (not truncation) for oversize arguments.",
   note="net.ParseIP(...).To4() is an assumed contract."),
  "C20": dict(cat="proof", ref="DESIGN.md 4 (C20), 9",
   text="Ownership is a static obligation: every byte-slice field written by an Unmarshal is proved to live in storage allocated during the call and to be disjoint from the input buffer (verifFresh / verifDisjoint in the lemma functions, for all inputs); Encode is proved to leave the payload list and payload fields unchanged, to return a buffer disjoint from everything the message references, and two consecutive encodings are proved byte-identical (bounded: messages of 2 payloads).",
-  note="Unprotection ownership (DecodeDecrypt) and encryptMsg's frame are decided under C01/C06 lemmas when claimed there."),
+  note="Unprotection ownership (DecodeDecrypt) is an assertion of lemma_C06_accept; encryptMsg's / decryptMsg's frame (nothing written but the message object handed in and hash input - in particular not the payload container the caller built the message from) is the frame condition of lemma_C17_state_preserved, counted here."),
 }
 
 NOT_APPLICABLE = {
